@@ -5,6 +5,7 @@ import (
 	"fmt"
 	"net"
 	"net/url"
+	"strings"
 
 	"github.com/vipnode/vipnode/v2/internal/pretty"
 )
@@ -21,17 +22,26 @@ func normalizeNodeURI(nodeURI, nodeID, defaultHost, defaultPort string) (string,
 			return "", err
 		}
 
+		// enode://<id>@2001:db8::1, an IPv6 address without the brackets (the
+		// agent builds this from --node-host): all of it is the address, the
+		// digits after its last colon are not a port.
+		bareIPv6 := isBareIPv6(uri.Host)
+
 		if uri.User == nil && isNodeID(uri.Hostname()) {
 			// enode://<id> without an address: what looks like the host to
 			// the URL parser is the node ID, not somewhere to dial.
 			if uri.Hostname() != nodeID {
 				return "", fmt.Errorf("nodeID %q does not match nodeURI: %s", pretty.Abbrev(nodeID), nodeURI)
 			}
+		} else if bareIPv6 {
+			if !isUnspecifiedHost(uri.Host) {
+				host = uri.Host
+			}
 		} else if h := uri.Hostname(); h != "" && !isUnspecifiedHost(h) {
 			host = h
 		}
 
-		if p := uri.Port(); p != "" {
+		if p := uri.Port(); p != "" && !bareIPv6 {
 			port = p
 		}
 
@@ -63,6 +73,12 @@ func isNodeID(s string) bool {
 		}
 	}
 	return true
+}
+
+// isBareIPv6 returns true if s is an IPv6 address as such, without brackets or
+// port.
+func isBareIPv6(s string) bool {
+	return strings.Contains(s, ":") && net.ParseIP(s) != nil
 }
 
 // isUnspecifiedHost returns true if the host is an unspecified IP address
